@@ -117,6 +117,8 @@ func runLayer(c Case, ctx int, x *runCtx) outcome {
 		return runExtended(x, base, ctx, vec(c.Vec, c.Batch))
 	case "extended-history":
 		return runExtendedHistory(x, c.Vec, ctx, vec("seeded", c.Batch))
+	case "multiply-history":
+		return runMultiplyHistory(x, c.Vec, ctx)
 	case "additive":
 		return runAdditive(x, base, ctx, vec(c.Vec, c.Batch), hexBig(c.A), hexBig(c.B))
 	case "multiply":
@@ -358,6 +360,9 @@ func allCases(res *vkit.Result, baseOK bool) (all []Case) {
 	}
 	for _, hv := range []string{"abandoned", "swapped", "reloaded"} {
 		cases = append(cases, Case{Layer: "extended-history", Vec: hv, Batch: 256, Ctxs: []int{0}})
+	}
+	for _, hv := range []string{"abandoned", "reloaded", "interleaved"} {
+		cases = append(cases, Case{Layer: "multiply-history", Vec: hv, Ctxs: []int{0}})
 	}
 	// very large batches (more than 8192 rows after inflation: the column expansion runs over several KiB)
 	for _, b := range []int{7992, 8200, 16504} {
